@@ -27,6 +27,8 @@ func runC16(c *an.Ctx) {
 	r16e(c)
 	// round 7
 	r16g(c)
+	// round 8
+	r16h(c)
 }
 
 const trPkg = "executor/executorcmd/transitioner"
